@@ -171,6 +171,11 @@ def apply (cfg : Cfg) (l : LSt) : LOp → Option (LSt × Option Nat × Out)
     let r := step cfg l.s .idleTimeout
     some ({ l with s := r.1 }, none, .none)
   | .pHeaders t kind fin tag =>
+    -- r5: HEADERS for a caller whose stream was aborted (GOAWAY, RST_STREAM, connection error) while
+    -- its request goroutine is still parked: `roundTrip`'s select prefers `respHeaderRecv` when it
+    -- finds both signals, so what the caller gets depends on whether its goroutine had already
+    -- reached `waitDone()` — nothing observable tells, the lane cannot force it (seen under load)
+    if abortedUnreturned l t then none else
     if fin && uploadTarget l t then none else frame l t false (fun id => .headers id kind fin tag)
   | .pData t len fin tag =>
     if fin && uploadTarget l t then none else frame l t false (fun id => .data id len fin tag)
@@ -185,6 +190,12 @@ def apply (cfg : Cfg) (l : LSt) : LOp → Option (LSt × Option Nat × Out)
 where
   uploadTarget (l : LSt) : Tgt → Bool
     | .ofCaller n => (l.s.cs n).upload
+    | _ => false
+  abortedUnreturned (l : LSt) : Tgt → Bool
+    | .ofCaller n =>
+      let c := l.s.cs n
+      -- the model's settle lets `rtSee` happen at once (`sawAbort`); the real goroutine may lag
+      c.abort.isSome && (c.rt = .waiting || c.rt = .sawAbort) && !c.gotHead && c.phase != .done
     | _ => false
   /-- `zeroOk`: the frame type is legal on stream 0 (else the framer itself rejects it) -/
   frame (l : LSt) (t : Tgt) (zeroOk : Bool) (mk : Nat → Frame) : Option (LSt × Option Nat × Out) :=
